@@ -49,6 +49,11 @@ class Ctx:
         acts = {}
         for m in re.finditer(r"^<(\w+) line \d+, col \d+ to line \d+, col \d+ of module (\w+)>: (\d+):(\d+)", out, re.M):
             acts[m.group(1)] = acts.get(m.group(1), 0) + int(m.group(4))
+        if simulate:
+            sm = re.findall(r"Progress: (\d+) states checked, (\d+) traces generated", out)
+            if sm:
+                res["states"] = res["transitions"] = int(sm[-1][0])
+                res["sim_traces"] = int(sm[-1][1])
         entry = {"model": label, "states": res.get("states", 0), "transitions": res.get("transitions", 0),
                  "wall_s": round(res["wall"], 1), "actions_taken": acts}
         res["actions"] = acts
@@ -60,7 +65,9 @@ class Ctx:
                 self.cov["models"].append(entry)
                 return res
             raise MachineryError("design-level counterexample in %s: %s\n%s" % (label, viol, strip_cov(out)[-6000:]))
-        if not tlc_ok(res) and not (simulate and res["rc"] == 0):
+        if simulate and res["rc"] == 0 and "rror" not in strip_cov(out).replace("No error", ""):
+            entry["simulated_behaviours"] = res.get("sim_traces", 0)
+        elif not tlc_ok(res):
             raise MachineryError("TLC failed on %s:\n%s" % (label, strip_cov(out)[-6000:]))
         if expect_violation:
             entry["expected_counterexample"] = []
